@@ -51,6 +51,7 @@ func init() {
 	}
 	externals["strconv.FormatBool"] = extPureUF("strconv_FormatBool")
 	externals["strconv.FormatInt"] = extPureUF("strconv_FormatInt")
+	registerRegexpModel()
 	invokes = map[string]invHandler{
 		"io.Writer.Write": invZipEntryWrite,
 		"error.Error": func(f *frame, cm *ssa.CallCommon, recv Val, a []Val, st *State, n string, rt types.Type, p token.Pos) Val {
